@@ -182,7 +182,7 @@ func genSqlr(r *Rng) *Enc {
 		}
 		o.NullHandler = mapVals
 	case 5:
-		o.NullHandler = Pick(r, []string{"bogus", "Zero", ""})
+		o.NullHandler = Pick(r, []string{"bogus", "Zero", "", "skip_rows", "no_skip_row", "skip_row_if_null", "nil ", "zeros"})
 	case 6:
 		o.NullHandler = 42
 	}
